@@ -121,6 +121,12 @@ package files
 //@   let nent := len(path.entries)
 // a directory segment also matches zero levels only when it consists of stars: what is trimmed is the star
 //@   atcall Trim staronly: arg0 == path.entries[0].value && arg1 == "*" [C20]
+// the descent (every recursive call): below the root for the segment "/", in the same directory for the
+// zero-level reading, otherwise in <dir>/<name> for a LISTED entry whose name matches the segment
+// (a wildcard segment by glob, a literal segment by equality) - never in a directory that is not listed
+//@   atcall GetFileList root: !defined(entries) ==> arg1 == "/" && pat == "/" [C20]
+//@   atcall GetFileList descent: defined(entries) ==> arg1 == currentDirectory || (exists j :: { entries[j] } 0 <= j && j < len(entries) && arg1 == currentDirectory ++ "/" ++ deName(entries[j]) && (path.entries[0].entryType == WildcardDirectory ? glob(deName(entries[j]), pat) : deName(entries[j]) == pat)) [C20]
+//@   atcall GetFileList rest: len((arg0 as *Path).entries) == nent - 1 [C20]
 //@   ensures leaf: nent == 1 && defined(E) ==> len(result) == select(N, len(E)) && select(N, 0) == 0 && (forall k :: { E[k] } 0 <= k && k < len(E) ==> (selected(E[k], pat) ? (select(N, k + 1) == select(N, k) + 1 && result[select(N, k)] == currentDirectory ++ "/" ++ deName(E[k])) : select(N, k + 1) == select(N, k))) [C20]
 //@   ensures unreadable: nent == 1 && !defined(E) ==> len(result) == 0 [C20]
 //@   loop 1 ghost E []os.DirEntry := entries ;; E
@@ -131,6 +137,7 @@ package files
 //@   loop 2 invariant path != nil && len(path.entries) >= 2 && (forall j :: { entries[j] } 0 <= j && j < len(entries) ==> entries[j] != nil) [C20]
 //@ func directoryExists [C20]
 //@   requires forall j :: { entries[j] } 0 <= j && j < len(entries) ==> entries[j] != nil
+//@   ensures found: result ==> (exists j :: { entries[j] } 0 <= j && j < len(entries) && deName(entries[j]) == name)
 //@   loop 1 invariant forall j :: { entries[j] } 0 <= j && j < len(entries) ==> entries[j] != nil
 //@ func (*Path).shrink [C20]
 //@   requires path != nil && len(path.entries) >= 1
